@@ -204,7 +204,7 @@ def canon_mcfg(c, st: Names) -> tuple:
 def one(s):
     """The single element of a yielded singleton set."""
     if not isinstance(s, (set, frozenset)) or len(s) != 1:
-        raise InfraError(f"expected a singleton set, got {s!r}")
+        raise ValueError(f"expected a singleton set, got {s!r}")   # the real code yielded another shape
     return next(iter(s))
 
 
